@@ -96,6 +96,13 @@ Theorem C05_rnto_consumes_pending_rename : forall users self arg d appe w,
 Proof. exact rnto_consumes. Qed.
 Print Assumptions C05_rnto_consumes_pending_rename.
 
+(* USER drops a pending rename source whatever the outcome of the lookup (repair of F18: before it a
+   RNFR accepted for one login could be completed by RNTO under the next login) *)
+Theorem C05_reuser_drops_pending_rename : forall users self arg d appe w,
+  s_rnfr (w_s (res_world (body users self "user" arg d appe w))) = None.
+Proof. exact user_drops_rnfr. Qed.
+Print Assumptions C05_reuser_drops_pending_rename.
+
 Theorem C05_relogin_resets_cwd : forall users self arg d appe w i u,
   find_user users 0 arg None = Some i -> nth_error users i = Some u ->
   s_cwd (w_s (res_world (body users self "user" arg d appe w))) = u_home u.
